@@ -145,6 +145,7 @@ type Contract struct {
 	Splits   []*SplitSpec
 	Trusted  string
 	Inline   bool
+	Swar     []string // escape tables for which the SWAR mask lemma is proved and used
 	AlsoTags []string // additional build-tag sets under which the function is verified as well (e.g. race)
 	NoMerge  bool // path-sensitive execution: states are not merged at joins (small functions only)
 	Safety   bool // generate run-time-check obligations (default true)
@@ -492,6 +493,8 @@ func (cs *ContractSet) parseClause(body, pos, pkg string, cur **Contract) error 
 		c.Inline = true
 	case "nomerge":
 		c.NoMerge = true
+	case "swar":
+		c.Swar = append(c.Swar, strings.Fields(rest)...)
 	case "alsotags":
 		c.AlsoTags = append(c.AlsoTags, strings.Fields(rest)...)
 	case "nosafety":
